@@ -13,6 +13,17 @@ CHECKS = {
    text="All pairs of absolute non-escaping paths over {x,y,.,..} up to depth 5 (quick) / 6 (thorough) are pushed through the real functions and compared with a component-list reference (exhaustive for that sub-space), then random deeper paths with repeated separators and trailing slashes.",
    note="trusts the 10-line reference normaliser; B being A's own directory/ancestor is outside the './' prefix clause (B is a file)", ref="DESIGN.md §5 C20"),
 }
+CHECKS.update({
+ "C07": dict(cat="exploration", tech="runtime monitor: real parser output vs reference parser (structure + positions) on generated documents rendered with hostile trivia",
+   text="Random documents covering every production (all definition/extension kinds, every value kind, escapes, block strings, #import, shorthand, keyword-like names) are rendered three times with independent trivia policies; the real parse_* result is extracted and compared node by node, positions included, with what an independent reference parser says the same text denotes. The generator model cross-checks the reference parser on every case.",
+   note="trusts harness refparse.rs (written from the GraphQL spec draft) as the meaning of a text; lone \\r outside strings not generated", ref="DESIGN.md §5 C07"),
+ "C11": dict(cat="exploration", tech="runtime monitor: real resolve_schema_extensions vs reference merge, with fault layer and order-preserving permutations / file splits",
+   text="Documents with 0-3 extensions per definition over all seven kinds, duplicates, orphans and cross-kind name clashes are split over files, parsed with per-file indices and resolved by the real code; the result multiset, the failure verdict and the error position are compared with a reference merge, and each case is re-run under three order-preserving permutations with other file splits.",
+   note="block strings masked (C07 owns their defect); comparison is up to definition order as the property says", ref="DESIGN.md §5 C11"),
+ "C13": dict(cat="exploration", tech="runtime monitor: real resolve_operation_imports vs reference import closure; bounded-exhaustive small graphs + random graphs with fault layer",
+   text="All import graphs over <=2 files (quick) / <=3 files (thorough) x 2 fragments with an edge label in {none,*,A,B,A+B} per ordered pair incl. self are resolved by the real code through an in-memory OperationResolver and compared (multiset keyed by originating file and name, verdict, error position) with a reference closure; random graphs up to 8 files add differently spelled paths, dangling files, missing and repeated names, and import-line permutations.",
+   note="termination is observed as 'returned' under the shard watchdog (a hang or stack overflow makes the run inconclusive and is then re-run in trace mode)", ref="DESIGN.md §5 C13"),
+})
 NOT_YET = {}
 
 def main():
